@@ -976,6 +976,38 @@ pub mod simd {
             return None;
         }
         if which.starts_with("simd_history") {
+            // C10, last clause: planners fed the same request sequence return transforms with bit-identical outputs.  Sequences that put
+            // several admissible choices into a planner's caches before the request that may pick among them: two lengths in
+            // [2p-1, next_pow2(2p-1)] and then the prime p (Bluestein inner length), and pairs of related smooth lengths; 6 replicas each.
+            macro_rules! replicas {
+                ($planner:ident, $t:ty) => {{
+                    if crate::$planner::<$t>::new().is_ok() {
+                        let mut seqs: Vec<Vec<usize>> = Vec::new();
+                        for &p in &[59usize, 83, 107] {
+                            let lo = 2 * p - 1; let hi = lo.next_power_of_two();
+                            let cands: Vec<usize> = (lo..=hi).filter(|&m| { let mut x = m; for q in [2usize, 3, 5, 7] { while x % q == 0 { x /= q; } } x == 1 }).collect();
+                            for i in 0..cands.len() { for j in 0..cands.len() { if i != j && (i + j) % 2 == 1 { seqs.push(vec![cands[i], cands[j], p]); } } }
+                        }
+                        for s in [vec![16usize, 64, 128], vec![25, 100, 50], vec![36, 72, 144, 37], vec![49, 98, 197]] { seqs.push(s); }
+                        for seq in seqs {
+                            let last = *seq.last().unwrap();
+                            let mut first: Option<Vec<u64>> = None;
+                            for rep in 0..6 {
+                                let desc = format!("{}::<{}>: requests {:?} (Forward), replica {}", stringify!($planner), stringify!($t), seq, rep);
+                                eprintln!("CASE {desc}");
+                                let r = quiet(|| { let mut p = crate::$planner::<$t>::new().unwrap(); let mut f = p.plan_fft_forward(seq[0]); for &n in &seq[1..] { f = p.plan_fft_forward(n); } f });
+                                let f = match r { Err(e) => return Some(format!("{desc} panicked: {}", panic_msg(e))), Ok(f) => f };
+                                let mut a: Vec<Complex<$t>> = (0..last).map(gen).collect();
+                                let mut sc = vec![Complex::new(0.0, 0.0); f.get_inplace_scratch_len()];
+                                f.process_with_scratch(&mut a, &mut sc);
+                                let b: Vec<u64> = a.iter().flat_map(|c| [bits(c.re), bits(c.im)]).collect();
+                                match &first { None => first = Some(b), Some(x) => if *x != b { return Some(format!("{desc}: the transform of length {last} returned after the same request sequence differs bit for bit from the one replica 0 got (planner answers depend on something other than the request history)")); } }
+                            }
+                        }
+                    }
+                }};
+            }
+            replicas!(FftPlannerAvx, f32); replicas!(FftPlannerAvx, f64); replicas!(FftPlannerSse, f32); replicas!(FftPlannerSse, f64);
             let pool: Vec<usize> = if limit > 100 { vec![5, 16, 25, 35, 36, 37, 50, 64, 70, 74, 101, 125, 128, 192, 193, 250, 407, 625] } else { vec![5, 16, 25, 35, 37, 50, 64, 70, 125, 128, 193] };
             history!(FftPlannerAvx, f32, pool, 2e-4); history!(FftPlannerAvx, f64, pool, 1e-11);
             history!(FftPlannerSse, f32, pool, 2e-4); history!(FftPlannerSse, f64, pool, 1e-11);
